@@ -3,6 +3,7 @@ import Rare.Proofs.Pipeline
 import Rare.Model.Lockset
 import Rare.Model.PipelineSkeleton
 import Rare.Gen.Skeleton
+import Rare.Proofs.AggLoopTrace
 /-!
 # C05 — race-free, atomic renders, complete final render
 
@@ -116,5 +117,88 @@ example : ∃ s : St Nat, Reach (init [[1, 2]]) s ∧ s.main = .finished ∧ s.r
     (.sample _ 1 [2] rfl)) (.sample _ 2 [] rfl)) (.munlock _ rfl)) (.eof _ rfl rfl rfl))
     (.handshake _ rfl rfl)) (.final _ rfl)
   exact ⟨_, hr, rfl, final_render_sees_all _ hr rfl⟩
+
+/-- The matched/read/ignored counters are bumped inside `processLineSync`, which `asyncWorker` calls for
+    every line of a batch BEFORE it sends the batch's matches on `readChan` — the order the pipeline
+    model's `wproc`/`wsend` steps assume and `matched_ge_sum_displayed` rests on.  (A counter update moved
+    after the send changes one of the two regenerated skeletons.) -/
+theorem counters_before_send_skeleton :
+    Gen.Skeleton.asyncWorker = PipelineSkeleton.asyncWorker ∧
+    Gen.Skeleton.processLineSync = PipelineSkeleton.processLineSync ∧
+    PipelineSkeleton.asyncWorker.idxOf "call:si.processLineSync" < PipelineSkeleton.asyncWorker.idxOf "send:s.readChan" ∧
+    "atomic.AddUint64:&s.matchedLines" ∈ PipelineSkeleton.processLineSync ∧
+    "atomic.AddUint64:&s.matchedLines" ∉ PipelineSkeleton.asyncWorker := by
+  refine ⟨rfl, rfl, by decide, by decide, by decide⟩
+
+/-! ## Trace inclusion: the event log of a real run of `RunAggregationLoop` is a path of the transition system
+
+`Rare.AggLoopTrace` (Model/AggLoopTrace.lean, Model/C01C05TraceOrder.lean): the `verif` hooks log the
+ticker's tick / lock / render / unlock / done and main's receive / lock / unlock / end-of-stream / done
+hand-shake / final render; the harness' aggregator and render callback log every `Sample` and every render.
+The checker accepts a log when some admissible reordering of it replays through the named transition
+function `AggLoop.apply` from `init stream` to `main = finished`. -/
+
+section Trace
+open Rare.TraceOrder Rare.AggLoopTrace
+
+/-- The named transition function the trace checker executes is exactly the transition relation. -/
+theorem trace_labels_are_steps (s s' : St κ) : Step s s' ↔ ∃ l, AggLoop.apply s l = some s' :=
+  ⟨apply_complete, fun ⟨_, h⟩ => apply_sound h⟩
+
+/-- `accepts_sound`: an accepted log has an admissible reordering that is a labelled path of the
+    transition system from `init stream` (labels = event by event the transitions the logged events stand
+    for, environment steps inserted just in time) ending with main finished; the end state is reachable. -/
+theorem trace_accepts_sound (stream : List (List Bytes)) (L : Lin ASt) (tr : Array Ev)
+    (h : TraceOrder.accepts machine L (initSt stream) tr = true) :
+    ∃ sched labels as, Admissible tr sched ∧
+      EvPath (initSt stream) (sched.map (evAt tr)) labels as ∧
+      LPath (init stream) labels as.lts ∧ Reach (init stream) as.lts ∧ as.lts.main = .finished := by
+  obtain ⟨sched, as, hadm, hrep, hfin⟩ := TraceOrder.accepts_sound h
+  obtain ⟨labels, hev⟩ := replay_evpath _ _ _ hrep
+  have hl := hev.lpath
+  refine ⟨sched, labels, as, hadm, hev, hl, hl.reach .refl, ?_⟩
+  simp only [machine] at hfin
+  cases hm : as.lts.main <;> simp [hm, isFinished] at hfin ⊢
+
+/-- Every state the accepted run goes through is reachable, hence: a render never overlaps a sample,
+    a running periodic render sees a frozen aggregator, and every render so far saw a prefix of the
+    stream — in the states of the REAL run, at the granularity of the logged events. -/
+theorem trace_states_invariant (stream : List (List Bytes)) (evs : List Ev) (as : ASt)
+    (h : replay machine (initSt stream) evs = some as) (k : Nat) :
+    ∃ ask, replay machine (initSt stream) (evs.take k) = some ask ∧ Reach (init stream) ask.lts ∧
+      ¬ (ask.lts.ticker = .rendering ∧ ask.lts.main.isSampling = true) ∧
+      (ask.lts.ticker = .rendering → ask.lts.snap = ask.lts.sampled) ∧
+      (∀ r ∈ ask.lts.renders, r <+: stream.flatten) := by
+  rw [← List.take_append_drop k evs] at h
+  obtain ⟨ask, h1, _⟩ := replay_append _ _ _ _ _ h
+  obtain ⟨labels, hev⟩ := replay_evpath _ _ _ h1
+  have hr : Reach (init stream) ask.lts := hev.lpath.reach .refl
+  exact ⟨ask, h1, hr, render_sample_exclusive stream hr, render_sees_frozen_state stream hr,
+    fun r hmem => (intermediate_counts_le_final stream hr r hmem).1⟩
+
+/-- An accepted log ends after a final render that saw every match of the stream, with the ticker
+    stopped and the mutex free. -/
+theorem trace_final (stream : List (List Bytes)) (L : Lin ASt) (tr : Array Ev)
+    (h : TraceOrder.accepts machine L (initSt stream) tr = true) :
+    ∃ as : ASt, Reach (init stream) as.lts ∧ as.lts.renders.getLast? = some stream.flatten ∧
+      as.lts.sampled = stream.flatten ∧ as.lts.ticker = .stopped ∧ as.lts.mutex = .none := by
+  obtain ⟨_, _, as, _, _, _, hr, hm⟩ := trace_accepts_sound stream L tr h
+  have hf := final_render_after_last_sample stream hr (Or.inr hm)
+  exact ⟨as, hr, final_render_sees_all stream hr hm, hf.1, hf.2.2.2.1, hf.2.2.2.2⟩
+
+/-- Non-vacuity: a small real-shaped log (one batch of two keys; a periodic render between the receive
+    and the end of the stream; the ticker logs its `done` late, after main's final render) is accepted;
+    the log order itself is not a path (main's `mt` needs the hand-shake first). -/
+example : TraceOrder.accepts machine lin (initSt (streamOf exampleLog)) exampleLog.toArray = true ∧
+    replay machine (initSt (streamOf exampleLog)) exampleLog = none := by
+  constructor <;> decide
+
+/-- … and the same log with the final render's callback removed (a skipped final `writeOutput`) is
+    rejected. -/
+example : TraceOrder.accepts machine lin (initSt (streamOf exampleLog))
+    (exampleLog.filter fun e => !(e.g == 0 && (e.kind == "rb" || e.kind == "rn"))).toArray = false := by
+  decide
+
+end Trace
 
 end Rare.C05
